@@ -100,8 +100,9 @@ func (m *MergeCompactionIterator) Next() ([]byte, []byte, error) {
 		}
 
 		var toReturnKey, toReturnVal []byte
-		//we have to accumulate the whole sequence
-		if m.prevKey != nil && m.comp.Compare(k, m.prevKey) != 0 {
+		//we have to accumulate the whole sequence; a started sequence is recognized by its buffered values, not by its
+		//key: the empty key is read back as nil and would otherwise absorb the values of the key that follows it
+		if len(m.valBuf) > 0 && m.comp.Compare(k, m.prevKey) != 0 {
 			kReduced, vReduced := m.reduce(m.prevKey, m.valBuf, m.ctxBuf)
 			if kReduced != nil && vReduced != nil {
 				toReturnKey = kReduced
